@@ -90,8 +90,19 @@ fn term(rng: &mut Rng, crlf_mode: u8) -> &'static [u8] {
 }
 
 fn rand_head(rng: &mut Rng) -> Vec<u8> {
-    let len = *rng.pick(&[0usize, 1, 2, 3, 5, 8, 13]);
-    let mut h = rand_bytes(rng, len, HEAD_CHARS);
+    let mut h = if rng.chance(1, 20) {
+        // a long identifier (no space before the last few bytes) with multi-byte and invalid UTF-8 around the
+        // lengths at which something that keeps or prints identifiers might cut them
+        let len = *rng.pick(&[31usize, 32, 33, 63, 64, 65, 66, 127, 128, 129, 255, 256, 257]);
+        let mut h = rand_bytes(rng, len, b"abXY01_|:\xc3\xa9\xff\x80\xc3\xa9");
+        if rng.chance(1, 3) {
+            h.extend_from_slice(b" d");
+        }
+        h
+    } else {
+        let len = *rng.pick(&[0usize, 1, 2, 3, 5, 8, 13]);
+        rand_bytes(rng, len, HEAD_CHARS)
+    };
     // a header must not end in CR (it would be taken for a line terminator)
     while h.last() == Some(&b'\r') {
         h.pop();
@@ -843,7 +854,8 @@ pub fn config_lattice(fmt: &str, rng: &mut Rng, n_inputs: usize, out: &mut Vec<S
         // half of the groups: plain record-by-record reading; the other half: a history whose observations do not
         // legitimately depend on the configuration (no plain set reads – their batch size may depend on the capacity –,
         // positions only asked right after a single read, no policy change)
-        let ops = if rng.chance(1, 2) { next_only_ops(fmt, &input) } else { config_free_history(fmt, rng, &input) };
+        let plain = rng.chance(1, 2);
+        let ops = if plain { next_only_ops(fmt, &input) } else { config_free_history(fmt, rng, &input) };
         let len = input.len().max(3);
         let mut intr_script = vec![];
         for _ in 0..rng.range(2, 12) {
@@ -864,16 +876,27 @@ pub fn config_lattice(fmt: &str, rng: &mut Rng, n_inputs: usize, out: &mut Vec<S
             }
             (cap0, PolDesc::Limited(t, c + *rng.pick(&[0usize, 0, 0, 1])), 0, vec![])
         };
+        // fifth configuration: a capacity larger than the input; in half of the plain groups the reader is opened from a
+        // file path with that capacity (`P` case) under a policy that allows no growth at all – none is needed
+        let big = len + 1 + rng.below(4096);
+        let from_path = plain && rng.chance(1, 2);
+        let fifth = if from_path {
+            let cap = len + 1 + rng.below(24);
+            (cap, PolDesc::Limited(rng.range(1, 2 * cap), cap), 0, vec![])
+        } else {
+            (big, PolDesc::Std, rc, rs)
+        };
         let cfgs: Vec<(usize, PolDesc, usize, Vec<ReadEv>)> = vec![
             (3, PolDesc::Std, 1, vec![]),
             (rng.range(3, 9), PolDesc::Add(1), 2, intr_script),
             third,
             (64, PolDesc::Std, 0, vec![]),
-            (len + 1 + rng.below(4096), PolDesc::Std, rc, rs),
+            fifth,
             (rng.range(3, len + 2), PolDesc::Table((0..3).map(|_| rng.range(1, 7)).collect()), *rng.pick(&[0usize, 3, 7]), vec![]),
         ];
-        for (cap, pol, chunk, script) in cfgs {
-            let c = Case { kind: "R".to_string(), fmt: fmt.to_string(), cap, pol, chunk, script, seek_fails: vec![], input: input.clone(), ops: ops.clone() };
+        for (k, (cap, pol, chunk, script)) in cfgs.into_iter().enumerate() {
+            let kind = if k == 4 && from_path { "P" } else { "R" };
+            let c = Case { kind: kind.to_string(), fmt: fmt.to_string(), cap, pol, chunk, script, seek_fails: vec![], input: input.clone(), ops: ops.clone() };
             out.push(c.show());
         }
     }
@@ -1016,9 +1039,35 @@ pub fn recode_groups(fmt: &str, rng: &mut Rng, n_files: usize, out: &mut Vec<Str
 
 // ---------------------------------------------------------------- serialisation (C19) and allocation (C18) cases
 
+/// FASTA records wrapped at a fixed width – many lines of equal length – whose last line is shorter, equal, or LONGER
+/// than the others, some with a CRLF terminator on single lines: regular enough for any compact encoding of line offsets
+/// to apply, irregular exactly where such an encoding has to notice
+pub fn wrapped_fasta(rng: &mut Rng) -> Vec<u8> {
+    let mut f = vec![];
+    for _ in 0..rng.range(1, 4) {
+        f.push(b'>');
+        f.extend(rand_head(rng));
+        f.push(b'\n');
+        let w = rng.range(1, 12);
+        let nl = *rng.pick(&[2usize, 3, 7, 8, 9, 10, 14, 20]);
+        for l in 0..nl {
+            let last = l + 1 == nl;
+            let len = if last { *rng.pick(&[1, w, w, w + 1, 2 * w, 3 * w + 1]) } else { w };
+            f.extend(rand_bytes(rng, len, b"ACGT"));
+            // a CR before the line feed: on the last full-width line, the last line, or (rarely) anywhere
+            let cr = if last || l + 2 == nl { rng.chance(1, 4) } else { rng.chance(1, 40) };
+            if cr {
+                f.push(b'\r');
+            }
+            f.push(b'\n');
+        }
+    }
+    f
+}
+
 pub fn json_cases(fmt: &str, rng: &mut Rng, n: usize, out: &mut Vec<String>) {
     for _ in 0..n {
-        let input = rand_input(fmt, rng, 15);
+        let input = if fmt == "fa" && rng.chance(1, 3) { wrapped_fasta(rng) } else { rand_input(fmt, rng, 15) };
         let mut ops = vec![];
         for _ in 0..rng.range(2, 8) {
             match rng.below(6) {
@@ -1375,7 +1424,23 @@ pub fn par_z(rng: &mut Rng, size: usize, out: &mut Vec<String>) {
 /// `P` cases: the readers constructed from a file path (default and explicit capacity)
 pub fn path_cases(fmt: &str, rng: &mut Rng, n: usize, out: &mut Vec<String>) {
     for _ in 0..n {
-        let input = rand_input(fmt, rng, 20);
+        let input = if rng.chance(1, 3) {
+            // a file with exactly one record, with and without the final line terminator
+            let n = rng.range(1, 12);
+            let seq = rand_bytes(rng, n, b"ACGT");
+            let mut f = if fmt == "fa" { b">id d\n".to_vec() } else { b"@id d\n".to_vec() };
+            f.extend_from_slice(&seq);
+            if fmt == "fq" {
+                f.extend_from_slice(b"\n+\n");
+                f.extend(std::iter::repeat(b'I').take(n));
+            }
+            if rng.chance(1, 2) {
+                f.push(b'\n');
+            }
+            f
+        } else {
+            rand_input(fmt, rng, 20)
+        };
         let mut ops = vec![];
         for _ in 0..rng.range(3, 14) {
             ops.push(if rng.chance(1, 4) { Op::Owned } else { Op::Next });
@@ -1384,7 +1449,14 @@ pub fn path_cases(fmt: &str, rng: &mut Rng, n: usize, out: &mut Vec<String>) {
             }
         }
         let cap = if rng.chance(1, 2) { 65536 } else { rand_cap(rng, input.len()) };
-        let c = Case { kind: "P".to_string(), fmt: fmt.to_string(), cap, pol: PolDesc::Std, chunk: 0, script: vec![], seek_fails: vec![], ops, input };
+        // the growth policy is set on the reader that the path constructor returned, and its requests are logged
+        let pol = match rng.below(4) {
+            0 => PolDesc::Std,
+            1 => refusing_policy(rng, input.len()),
+            2 => PolDesc::Limited(rng.range(1, 40), cap.max(input.len()) + rng.below(8)),
+            _ => wf_policy(rng),
+        };
+        let c = Case { kind: "P".to_string(), fmt: fmt.to_string(), cap, pol, chunk: 0, script: vec![], seek_fails: vec![], ops, input };
         out.push(c.show());
     }
 }
